@@ -55,7 +55,7 @@ NearTokens(d) ==        \* near misses of declared long names: proper prefix, ca
   UNION {LET nl == NsLong(d, d.opts[o]) IN
          (IF Len(nl) > 1 THEN {<<DASH, DASH>> \o Take(nl, Len(nl) - 1)} ELSE {})
          \cup (IF nl # E /\ IsLower(nl[1]) THEN {<<DASH, DASH>> \o <<nl[1] - 32>> \o Tail(nl)} ELSE {})
-         \cup (IF nl # d.opts[o].long THEN {<<DASH, DASH>> \o d.opts[o].long} ELSE {})
+         \cup (IF nl # d.opts[o].long THEN {<<DASH, DASH>> \o d.opts[o].long, <<DASH, DASH>> \o Take(nl, Len(nl) - Len(d.opts[o].long))} ELSE {})
          : o \in {o \in 1..Len(d.opts) : d.opts[o].long # E}}
 HelpTokens == {<<DASH, 104>>, <<DASH, DASH, 104, 101, 108, 112>>}
 
